@@ -178,6 +178,29 @@ func c01Main(seed uint64, n int, outDir string, self string) error {
 			progs = append(progs, c01Prog{"x = (func() { " + s + " }()) ?? 1", "degenerate-in-coalesce"})
 		}
 	}
+	// every degenerate form again with its operands obtained through an element, a map entry or a Go
+	// function declared interface{} (the guards must not depend on the operand's provenance)
+	provNames := []string{"list", "dict", "nothing", "n", "str", "ints", "strs", "ch", "pt", "nilptrs", "fl", "mod", "probe"}
+	hops := []func(string) string{
+		func(x string) string { return "[" + x + "][0]" },
+		func(x string) string { return "hid(" + x + ")" },
+		func(x string) string { return "{\"k\": " + x + "}.k" },
+	}
+	for _, s := range c01Degenerate() {
+		for hi, hop := range hops {
+			v := s
+			for _, nm := range provNames {
+				v = replaceIdent(v, nm, "\x00"+nm+"\x01")
+			}
+			if v == s {
+				continue
+			}
+			for _, nm := range provNames {
+				v = strings.ReplaceAll(v, "\x00"+nm+"\x01", hop(nm))
+			}
+			progs = append(progs, c01Prog{v, fmt.Sprintf("degenerate-provenance-%d", hi)})
+		}
+	}
 	envNames := []string{"n", "fl", "str", "t", "nothing", "list", "dict", "ints", "strs", "ch", "nilptrs", "pt", "add", "cat", "boom", "boomv", "mod", "probe", "hvar"}
 	for len(progs) < n {
 		switch rnd.Intn(10) {
